@@ -65,9 +65,9 @@ Definition chk_eval (c : ecase) : list N :=
      if negb (N.eqb (ec_cerr c) 0) then [2%N] else
      (* 3: layout fidelity *)
      (match ec_prog c with Some Pg => if prog_eqb Pm Pg then [] else [3%N] | None => [] end) ++
-     (* 10: the structural event-mode compiler (the one the C12 theorem is about) against the transliterated
-            calAndSetEventNode pass *)
-     (if ev then (if prog_eqb (compileE tt) Pm then [] else [10%N]) else []) ++
+     (* 10: cross-check of the structural event-mode compiler (Pm, the one the C12 theorems are about and the one
+            compared with Go's program by code 3) against the transliterated calAndSetEventNode pass *)
+     (if ev then (if prog_eqb (eventize (compile tt)) Pm then [] else [10%N]) else []) ++
      (* 8: static validation of Go's program *)
      (match ec_prog c with Some Pg => if stack_ok Pg then [] else [8%N] | None => [] end) ++
      (* 4: the Eval loop model on Go's own program *)
